@@ -152,7 +152,7 @@ def ensure_harness(variant, name, extra_libs=(), no_access=True):
         bdir = os.path.join(vdir, "cmake")
         logfile = os.path.join(vdir, "harness-%s.log" % name)
         open(logfile, "w").close()
-        inc = ["-I" + os.path.join(REPO, "include"), "-I" + os.path.join(bdir, "include"),
+        inc = ["-I" + os.path.join(REPO, "include"), "-I" + os.path.join(REPO, "src"), "-I" + os.path.join(bdir, "include"),
                "-I/usr/include/eigen3", "-I" + HARNESS] + ["-I" + p for p in MPI_INC]
         cmd = (["g++", "-std=c++11", "-w", "-fopenmp"] + VARIANTS[variant]["cxx"] + (["-fno-access-control"] if no_access else [])
                + inc + [os.path.join(HARNESS, name + ".cpp"), "-o", exe + ".tmp",
